@@ -156,25 +156,291 @@ Proof.
     rewrite (IHx (nstuck_bind_l _ _ Hn)). destruct (dpa ev v x) as [p|g|k]; reflexivity.
 Qed.
 
-(* the value of the comparison, before it is read as a truth value *)
-Definition dpredv (ev : event) (v : value) (p : pred) : res value :=
-  rdo x <- dpa ev v (p_l p); rdo y <- dpa ev v (p_r p); arith (p_op p) x y.
+(* ---------- names ---------- *)
+Definition first_not_underscore (b : string) : bool :=
+  match b with String c _ => negb (Ascii.eqb c "_"%char) | EmptyString => false end.
+Definition base_ok (b : string) : bool := negb (last_digit b) && first_not_underscore b.
 
-Lemma dpred_dpredv ev v p : dpred ev v p = rbind (dpredv ev v p) truth.
+Lemma nm_inj (b1 b2 : string) (i j : nat) :
+  last_digit b1 = false -> last_digit b2 = false -> nm b1 i = nm b2 j -> i = j.
+Proof. intros H1 H2 H. unfold nm in H. destruct (name_index_split b1 b2 i j H1 H2 H) as [_ E]. exact E. Qed.
+
+Lemma nm_neq (b1 b2 : string) (i j : nat) :
+  last_digit b1 = false -> last_digit b2 = false -> i <> j -> String.eqb (nm b1 i) (nm b2 j) = false.
 Proof.
-  unfold dpred, dpredv. destruct (dpa ev v (p_l p)); cbn [rbind]; try reflexivity.
-  destruct (dpa ev v (p_r p)); cbn [rbind]; try reflexivity.
+  intros H1 H2 Hne. destruct (String.eqb (nm b1 i) (nm b2 j)) eqn:E; [|reflexivity].
+  apply String.eqb_eq in E. exfalso. apply Hne. exact (nm_inj b1 b2 i j H1 H2 E).
 Qed.
+
+Lemma nm_neq_base (b1 b2 : string) (i j : nat) :
+  last_digit b1 = false -> last_digit b2 = false -> b1 <> b2 -> String.eqb (nm b1 i) (nm b2 j) = false.
+Proof.
+  intros H1 H2 Hne. destruct (String.eqb (nm b1 i) (nm b2 j)) eqn:E; [|reflexivity].
+  apply String.eqb_eq in E. exfalso. apply Hne. unfold nm in E. destruct (name_index_split b1 b2 i j H1 H2 E) as [Eb _]. exact Eb.
+Qed.
+
+Lemma nm_first (b : string) (i : nat) : first_not_underscore b = true -> first_not_underscore (nm b i) = true.
+Proof. destruct b; cbn; [discriminate|auto]. Qed.
+
+(* the value of the (possibly negated) comparison, before it is read as a truth value: dpredv (model) *)
+Lemma dpred_dpredv ev v p : dpred ev v p = rbind (dpredv ev v p) truth.
+Proof. reflexivity. Qed.
 
 Lemma eval_tpred (ev : event) (s : state) (iv : string) (ar : bool) (t : string) (v : value) (p : pred) :
   lookup iv s = Some (t, v) -> nstuck (dpredv ev v p) -> eval ev s (tpred iv ar p) = dpredv ev v p.
 Proof.
   intros Hl Hn. unfold tpred, dpredv in *.
-  change (eval ev s (CBin (p_op p) (tpa iv ar (p_l p)) (tpa iv ar (p_r p))))
-    with (rbind (eval ev s (tpa iv ar (p_l p))) (fun x => rbind (eval ev s (tpa iv ar (p_r p))) (fun y => arith (p_op p) x y))).
-  rewrite (eval_tpa ev s iv ar t v _ Hl (nstuck_bind_l _ _ Hn)).
-  destruct (dpa ev v (p_l p)) as [x|f|k]; cbn [rbind] in *; [|reflexivity|destruct Hn].
-  rewrite (eval_tpa ev s iv ar t v _ Hl (nstuck_bind_l _ _ Hn)). reflexivity.
+  assert (E : eval ev s (CBin (p_op p) (tpa iv ar (p_l p)) (tpa iv ar (p_r p))) =
+              rbind (dpa ev v (p_l p)) (fun x => rbind (dpa ev v (p_r p)) (fun y => arith (p_op p) x y))).
+  { change (eval ev s (CBin (p_op p) (tpa iv ar (p_l p)) (tpa iv ar (p_r p))))
+      with (rbind (eval ev s (tpa iv ar (p_l p))) (fun x => rbind (eval ev s (tpa iv ar (p_r p))) (fun y => arith (p_op p) x y))).
+    rewrite (eval_tpa ev s iv ar t v _ Hl (nstuck_bind_l _ _ Hn)).
+    destruct (dpa ev v (p_l p)) as [x|f|k]; cbn [rbind] in *; [|reflexivity|destruct Hn].
+    rewrite (eval_tpa ev s iv ar t v _ Hl (nstuck_bind_l _ _ Hn)). reflexivity. }
+  destruct (p_neg p).
+  - change (eval ev s (CUn "!" (CBin (p_op p) (tpa iv ar (p_l p)) (tpa iv ar (p_r p)))))
+      with (rbind (eval ev s (CBin (p_op p) (tpa iv ar (p_l p)) (tpa iv ar (p_r p)))) (fun x => unary "!" x)).
+    rewrite E. destruct (dpa ev v (p_l p)) as [x|f|k]; cbn [rbind]; try reflexivity.
+    destruct (dpa ev v (p_r p)) as [y|f|k]; cbn [rbind]; try reflexivity;
+    destruct (arith (p_op p) x y); reflexivity.
+  - rewrite E. destruct (dpa ev v (p_l p)) as [x|f|k]; cbn [rbind]; try reflexivity.
+    destruct (dpa ev v (p_r p)) as [y|f|k]; cbn [rbind]; try reflexivity;
+    destruct (arith (p_op p) x y); reflexivity.
+Qed.
+
+(* ================================================================================================ *)
+(* guards, generically: any "flat" statements under any guard                                       *)
+(* ================================================================================================ *)
+(* flat statements: assignments, push_back, clear, Fill and ifs over declaration-free blocks of flat statements.
+   Executing them under one more (empty) innermost frame changes nothing but that frame. *)
+Fixpoint flat_stmt (s : stmt) : bool :=
+  match s with
+  | SSet _ _ _ | SPush _ _ _ | SClear _ | SFill _ => true
+  | SIf _ (Blk [] b) None => flat_stmts b
+  | _ => false
+  end
+with flat_stmts (l : stmts) : bool :=
+  match l with SNil => true | SCons s r => flat_stmt s && flat_stmts r end.
+
+Definition rmap {A B} (f : A -> B) (r : res A) : res B := rbind r (fun a => ROk (f a)).
+
+Lemma eval_enter_nil (ev : event) (s : state) :
+  (forall e, eval ev (enter [] s) e = eval ev s e) /\ (forall l, eval_args ev (enter [] s) l = eval_args ev s l).
+Proof.
+  apply cexp_mutind; intros; cbn [eval eval_args]; try reflexivity;
+    repeat match goal with H : eval ev (enter [] s) _ = _ |- _ => rewrite H; clear H
+                      | H : eval_args ev (enter [] s) _ = _ |- _ => rewrite H; clear H end; reflexivity.
+Qed.
+
+Lemma assign_enter_nil (x : string) (v : value) (s : state) :
+  assign x v (enter [] s) = option_map (enter []) (assign x v s).
+Proof.
+  unfold assign, enter. cbn [frames members rows frames_set frame_set].
+  destruct (frames_set x v (frames s)) as [fs|]; [reflexivity|].
+  destruct (frame_set x v (members s)); reflexivity.
+Qed.
+
+Lemma flat_enter_nil (brs : list branch) (ev : event) :
+  (forall s0 : stmt, flat_stmt s0 = true -> forall st, exec_stmt brs ev s0 (enter [] st) = rmap (enter []) (exec_stmt brs ev s0 st)) /\
+  (forall b : block, match b with
+                     | Blk [] body => flat_stmts body = true ->
+                                      forall st, exec_stmts brs ev body (enter [] st) = rmap (enter []) (exec_stmts brs ev body st)
+                     | _ => True
+                     end) /\
+  (forall l : stmts, flat_stmts l = true -> forall st, exec_stmts brs ev l (enter [] st) = rmap (enter []) (exec_stmts brs ev l st)).
+Proof.
+  apply sbs_mutind; try (intros; discriminate).
+  - (* SSet *) intros x c e _ st. rewrite !exec_set. rewrite (proj1 (eval_enter_nil ev st) e).
+    destruct (eval ev st e) as [v|f|k]; cbn [rbind rmap]; try reflexivity.
+    rewrite lookup_enter_nil. destruct (lookup x st) as [[t o]|]; [|reflexivity].
+    rewrite assign_enter_nil. destruct (assign x _ st); reflexivity.
+  - (* SPush *) intros x c e _ st. cbn [exec_stmt]. rewrite (proj1 (eval_enter_nil ev st) e).
+    destruct (eval ev st e) as [v|f|k]; cbn [rbind rmap]; try reflexivity.
+    rewrite lookup_enter_nil. destruct (lookup x st) as [[t [| | | | |l| | |]]|]; try reflexivity.
+    rewrite assign_enter_nil. destruct (assign x _ st); reflexivity.
+  - (* SClear *) intros x _ st. cbn [exec_stmt]. rewrite lookup_enter_nil.
+    destruct (lookup x st) as [[t [| | | | |l| | |]]|]; try reflexivity.
+    rewrite assign_enter_nil. destruct (assign x _ st); reflexivity.
+  - (* SFill *) intros l _ st. reflexivity.
+  - (* SIf *) intros c b IHb els Hf st. cbn [flat_stmt] in Hf.
+    destruct b as [ds body]. destruct ds; [|discriminate]. destruct els; [discriminate|].
+    rewrite !exec_if. rewrite (proj1 (eval_enter_nil ev st) c).
+    destruct (eval ev st c) as [v|f|k]; cbn [rbind rmap]; try reflexivity.
+    destruct (truth v) as [t|f|k]; cbn [rbind]; try reflexivity.
+    destruct t; [|reflexivity].
+    rewrite !exec_block_eq. cbn [run_decls rbind].
+    rewrite (IHb Hf (enter [] st)). rewrite (IHb Hf st).
+    destruct (exec_stmts brs ev body st) as [y|f|k]; cbn [rbind rmap]; reflexivity.
+  - (* Blk *) intros ds body IH. destruct ds; [|exact I]. exact IH.
+  - (* SNil *) intros _ st. reflexivity.
+  - (* SCons *) intros s0 IHs r IHr Hf st. cbn [flat_stmts] in Hf. apply andb_prop in Hf as [H1 H2].
+    rewrite !exec_stmts_cons. rewrite (IHs H1 st).
+    destruct (exec_stmt brs ev s0 st) as [st'|f|k]; cbn [rbind rmap]; try reflexivity.
+    apply (IHr H2 st').
+Qed.
+
+Lemma flat_block (brs : list branch) (ev : event) (inner : stmts) (st : state) :
+  flat_stmts inner = true -> exec_block brs ev (Blk [] inner) [] st = exec_stmts brs ev inner st.
+Proof.
+  intro Hf. rewrite exec_block_eq. cbn [run_decls rbind].
+  rewrite (proj2 (proj2 (flat_enter_nil brs ev)) inner Hf st).
+  destruct (exec_stmts brs ev inner st) as [y|f|k]; cbn [rbind rmap]; try reflexivity. rewrite pop_enter. reflexivity.
+Qed.
+
+(* nested Where guards around flat statements *)
+Lemma guards_block_exec (brs : list branch) (ev : event) (iv : string) (ar : bool) (t : string) (v : value) (inner : stmts) (ps : list pred) :
+  flat_stmts inner = true -> forall s, lookup iv s = Some (t, v) -> nstuck (passes ev v ps) ->
+  exec_stmts brs ev (guards_block (map (tpred iv ar) ps) inner) s =
+  match passes ev v ps with
+  | ROk true => exec_stmts brs ev inner s
+  | ROk false => ROk s
+  | RFault f => RFault f
+  | RStuck k => RStuck k
+  end.
+Proof.
+  intro Hf. induction ps as [|p r IH]; intros s Hl Hn; cbn [map guards_block passes] in *; [reflexivity|].
+  rewrite exec_one, exec_if. rewrite dpred_dpredv in *.
+  pose proof (nstuck_bind_l _ _ (nstuck_bind_l _ _ Hn)) as Hv.
+  rewrite (eval_tpred ev s iv ar t v p Hl Hv).
+  destruct (dpredv ev v p) as [w|f|k]; cbn [rbind] in *; [|reflexivity|destruct Hv].
+  destruct (truth w) as [b|f|k]; cbn [rbind] in *; [|reflexivity|destruct Hn].
+  destruct b; [|reflexivity].
+  assert (Hfg : flat_stmts (guards_block (map (tpred iv ar) r) inner) = true).
+  { clear - Hf. induction r as [|q r IHr]; cbn [map guards_block]; [exact Hf|]. cbn. rewrite IHr. reflexivity. }
+  rewrite (flat_block brs ev _ s Hfg). apply IH; assumption.
+Qed.
+
+(* ---- and / or guards ---- *)
+Definition gstate (g : guard) (n : nat) (b : bool) (s : state) : state :=
+  match g with GNest _ => s | GBool _ _ _ => upd (bo_name n) (VBool b) s end.
+
+Lemma conv_bool_truth (w : value) (b : bool) : truth w = ROk b -> conv "bool" w = VBool b.
+Proof.
+  destruct w; cbn; intro H; try discriminate; inversion H; subst; try reflexivity.
+Qed.
+
+Lemma lookup_upd_other (y x : string) (v : value) (st : state) (t : string) (old : value) :
+  fget x st = Some (t, old) -> String.eqb y x = false -> lookup y (upd x v st) = lookup y st.
+Proof.
+  intros H Hne. destruct (assign_upd x v st t old H) as (_ & _ & _ & O & M & _).
+  unfold lookup. fold (fget y (upd x v st)). fold (fget y st). rewrite (O y Hne), M. reflexivity.
+Qed.
+
+(* res = <pred>; in a state where res is a declared bool *)
+Lemma set_bool_pred (brs : list branch) (ev : event) (iv : string) (ar : bool) (t : string) (v : value) (bo : string) (p : pred)
+      (s : state) (old : value) :
+  lookup iv s = Some (t, v) -> fget bo s = Some ("bool", old) -> nstuck (dpred ev v p) ->
+  exec_stmt brs ev (SSet bo None (tpred iv ar p)) s =
+  match dpred ev v p with
+  | ROk b => ROk (upd bo (VBool b) s)
+  | RFault f => RFault f
+  | RStuck k => RStuck k
+  end.
+Proof.
+  intros Hl Hb Hn. rewrite exec_set. rewrite dpred_dpredv in *.
+  rewrite (eval_tpred ev s iv ar t v p Hl (nstuck_bind_l _ _ Hn)).
+  destruct (dpredv ev v p) as [w|f|k]; cbn [rbind] in *; try reflexivity.
+  destruct (truth w) as [b|f|k] eqn:Et; cbn [rbind] in *; [| |destruct Hn].
+  - destruct (assign_upd bo (conv "bool" w) s _ _ Hb) as (Ha & Hlk & _). rewrite Hlk, Ha.
+    rewrite (conv_bool_truth w b Et). reflexivity.
+  - destruct w; discriminate.
+Qed.
+
+Lemma bo_tail_exec (brs : list branch) (ev : event) (iv : string) (ar : bool) (t : string) (v : value) (bo : string) (is_and : bool)
+      (fin : stmts) (s : state) (old : value) (ps : list pred) :
+  lookup iv s = Some (t, v) -> String.eqb iv bo = false -> fget bo s = Some ("bool", old) ->
+  forall b, nstuck (bo_rest ev v is_and b ps) ->
+  exec_stmts brs ev (app_stmts (bo_tail is_and bo (map (fun q => bo_operand bo [] SNil (tpred iv ar q)) ps)) fin) (upd bo (VBool b) s) =
+  match bo_rest ev v is_and b ps with
+  | ROk b' => exec_stmts brs ev fin (upd bo (VBool b') s)
+  | RFault f => RFault f
+  | RStuck k => RStuck k
+  end.
+Proof.
+  intros Hl Hne Hb. induction ps as [|q r IH]; intros b Hn; cbn [bo_rest] in *; [reflexivity|].
+  destruct (assign_upd bo (VBool b) s _ _ Hb) as (_ & _ & G & _ & _ & _).
+  set (s1 := upd bo (VBool b) s) in *.
+  assert (Hl1 : lookup iv s1 = Some (t, v)) by (unfold s1; rewrite (lookup_upd_other iv bo _ s _ _ Hb Hne); exact Hl).
+  destruct (Bool.eqb b is_and) eqn:Eb.
+  - (* the operand runs *)
+    apply Bool.eqb_prop in Eb. subst is_and. cbn [map bo_tail app_stmts].
+    rewrite exec_stmts_cons.
+    assert (Ent : exec_stmt brs ev (SIf (bo_check b bo) (bo_operand bo [] SNil (tpred iv ar q)) None) s1 =
+                  exec_block brs ev (bo_operand bo [] SNil (tpred iv ar q)) [] s1).
+    { destruct b; [apply (and_enter_one brs ev bo _ s1 "bool")|apply (or_enter_one brs ev bo _ s1 "bool")]; apply lookup_fget; exact G. }
+    rewrite Ent. unfold bo_operand. cbn [snoc_stmts app_stmts].
+    rewrite (flat_block brs ev (SCons (SSet bo None (tpred iv ar q)) SNil) s1 eq_refl).
+    change (SCons (SSet bo None (tpred iv ar q)) SNil) with (one_stmt (SSet bo None (tpred iv ar q))). rewrite exec_one.
+    rewrite (set_bool_pred brs ev iv ar t v bo q s1 (VBool b) Hl1 G (nstuck_bind_l _ _ Hn)).
+    destruct (dpred ev v q) as [b'|f|k]; cbn [rbind] in *; try reflexivity.
+    unfold s1. rewrite (upd_upd bo _ _ s _ _ Hb). apply IH. exact Hn.
+  - (* absorbing value reached: none of the remaining operands runs *)
+    assert (Eb' : b = negb is_and) by (destruct b, is_and; try discriminate; reflexivity).
+    rewrite (bo_tail_skip brs ev is_and bo _ fin s1 "bool"); [reflexivity|].
+    apply lookup_fget. rewrite <- Eb'. exact G.
+Qed.
+
+Lemma gstmts_exec (brs : list branch) (ev : event) (iv : string) (ar : bool) (t : string) (v : value) (inner : stmts) (g : guard) (n : nat) :
+  flat_stmts inner = true -> forall (s : state),
+  lookup iv s = Some (t, v) -> String.eqb iv (bo_name n) = false ->
+  match g with GBool _ _ _ => exists old, fget (bo_name n) s = Some ("bool", old) | GNest _ => True end ->
+  nstuck (gpasses ev v g) ->
+  exec_stmts brs ev (gstmts iv ar g n inner) s =
+  match gpasses ev v g with
+  | ROk true => exec_stmts brs ev inner (gstate g n true s)
+  | ROk false => ROk (gstate g n false s)
+  | RFault f => RFault f
+  | RStuck k => RStuck k
+  end.
+Proof.
+  intros Hf s Hl Hne Hbo Hn. destruct g as [ps|is_and p ps]; cbn [gstmts gpasses gstate] in *.
+  - apply (guards_block_exec brs ev iv ar t v inner ps Hf s Hl Hn).
+  - destruct Hbo as (old & Hb). unfold bo_lower, bo_first. cbn [snoc_stmts app_stmts].
+    rewrite exec_stmts_cons.
+    rewrite (set_bool_pred brs ev iv ar t v _ p s old Hl Hb (nstuck_bind_l _ _ Hn)).
+    destruct (dpred ev v p) as [b|f|k]; cbn [rbind] in *; try reflexivity.
+    rewrite (bo_tail_exec brs ev iv ar t v _ is_and _ s old ps Hl Hne Hb b Hn).
+    destruct (bo_rest ev v is_and b ps) as [b'|f|k]; try reflexivity.
+    rewrite exec_one, exec_if, eval_var.
+    destruct (assign_upd (bo_name n) (VBool b') s _ _ Hb) as (_ & _ & G & _ & _ & _).
+    rewrite (lookup_fget _ _ _ G). cbn [rbind truth].
+    destruct b'; [|reflexivity]. apply (flat_block brs ev inner _ Hf).
+Qed.
+
+(* one iteration of a loop: the loop block's frame holds the loop variable and, for an and/or guard, its flag *)
+Definition lframe (g : guard) (n : nat) (iv : string) (v : value) (b : bool) : frame :=
+  (iv, ("auto", v)) :: match g with GNest _ => [] | GBool _ _ _ => [(bo_name n, ("bool", VBool b))] end.
+
+Lemma loop_block_exec (brs : list branch) (ev : event) (iv : string) (ar : bool) (g : guard) (n : nat) (inner : stmts) (v : value) (st : state) :
+  flat_stmts inner = true -> String.eqb iv (bo_name n) = false -> String.eqb (bo_name n) iv = false ->
+  nstuck (gpasses ev v g) ->
+  exec_block brs ev (loop_block iv ar g n inner) [(iv, ("auto", v))] st =
+  match gpasses ev v g with
+  | ROk true => rbind (exec_stmts brs ev inner (enter (lframe g n iv v true) st)) (fun s2 => ROk (pop_frame s2))
+  | ROk false => ROk st
+  | RFault f => RFault f
+  | RStuck k => RStuck k
+  end.
+Proof.
+  intros Hf Hne1 Hne2 Hn. unfold loop_block. rewrite exec_block_eq.
+  destruct g as [ps|is_and p ps]; cbn [gdecls run_decls rbind lframe].
+  - assert (Hl : lookup iv (enter [(iv, ("auto", v))] st) = Some ("auto", v)).
+    { unfold lookup, enter. cbn. rewrite String.eqb_refl. reflexivity. }
+    rewrite (gstmts_exec brs ev iv ar "auto" v inner (GNest ps) n Hf _ Hl Hne1 I Hn). cbn [gstate].
+    destruct (gpasses ev v (GNest ps)) as [[|]|f|k]; cbn [rbind]; try reflexivity. rewrite pop_enter. reflexivity.
+  - cbn [bo_decl d_init d_name d_type]. unfold declare, enter. cbn [frames members rows app default_value is_vector_type prefix].
+    change (default_value "bool") with VUninit. cbn [rbind].
+    match goal with |- context [exec_stmts _ _ (gstmts _ _ _ _ _) ?S] => set (s0 := S) end.
+    assert (Hl : lookup iv s0 = Some ("auto", v)).
+    { unfold lookup, s0. cbn [frames frames_get frame_get]. rewrite String.eqb_refl. reflexivity. }
+    assert (Hb : fget (bo_name n) s0 = Some ("bool", VUninit)).
+    { unfold fget, s0. cbn [frames frames_get frame_get]. rewrite Hne2, String.eqb_refl. reflexivity. }
+    rewrite (gstmts_exec brs ev iv ar "auto" v inner (GBool is_and p ps) n Hf s0 Hl Hne1 (ex_intro _ _ Hb) Hn). cbn [gstate].
+    assert (Eu : forall b, upd (bo_name n) (VBool b) s0 = enter [(iv, ("auto", v)); (bo_name n, ("bool", VBool b))] st).
+    { intro b. unfold upd, s0, enter. cbn [frames members rows frames_set frame_set]. rewrite Hne2, String.eqb_refl. reflexivity. }
+    destruct (gpasses ev v (GBool is_and p ps)) as [[|]|f|k]; cbn [rbind]; try reflexivity.
+    + rewrite Eu. reflexivity.
+    + rewrite Eu, pop_enter. reflexivity.
 Qed.
 
 (* ---------- one Count: guards, loop, retrieval ---------- *)
@@ -250,80 +516,63 @@ Proof.
   destruct (assign_upd agg (conv ty sm) s ty acc H) as (Ha & _). rewrite Ha. reflexivity.
 Qed.
 
-Lemma nest_agg (brs : list branch) (ev : event) (iv : string) (ar : bool) (agg ty t : string) (g : aggk) (v : value) (ps : list pred) :
-  forall (s : state) (acc : value),
-  lookup iv s = Some (t, v) ->
-  fget agg s = Some (ty, acc) -> acc <> VUninit ->
-  nstuck (rbind (passes ev v ps) (fun b => if b then agg_step ev ty g acc v else ROk acc)) ->
-  nest_run ev (exec_stmt brs ev (agg_update agg (agg_summand iv ar g))) (map (tpred iv ar) ps) s =
-  match passes ev v ps with
-  | ROk true => match agg_step ev ty g acc v with ROk a' => ROk (upd agg a' s) | RFault f => RFault f | RStuck k => RStuck k end
-  | ROk false => ROk s
-  | RFault f => RFault f
-  | RStuck k => RStuck k
-  end.
+Lemma lframe_other (g : guard) (n : nat) (iv : string) (v : value) (b : bool) (x : string) :
+  String.eqb x iv = false -> String.eqb x (bo_name n) = false -> frame_get x (lframe g n iv v b) = None.
 Proof.
-  induction ps as [|p r IH]; intros s acc Hl Hg Hu Hn; cbn [map nest_run passes] in *.
-  - cbn [rbind] in Hn. apply (exec_agg_update brs ev iv ar agg ty t g s acc v Hg Hu Hl Hn).
-  - rewrite dpred_dpredv in *.
-    pose proof (nstuck_bind_l _ _ (nstuck_bind_l _ _ (nstuck_bind_l _ _ Hn))) as Hv.
-    rewrite (eval_tpred ev s iv ar t v p Hl Hv).
-    destruct (dpredv ev v p) as [w|f|k]; cbn [rbind] in *; [|reflexivity|destruct Hv].
-    destruct (truth w) as [b|f|k]; cbn [rbind] in *; [|reflexivity|destruct Hn].
-    destruct b; [|reflexivity].
-    rewrite (IH (enter [] s) acc); [| exact Hl | rewrite fget_enter; [exact Hg|reflexivity] | exact Hu | exact Hn].
-    destruct (passes ev v r) as [[|]|f|k]; cbn [rbind] in *; try reflexivity.
-    + destruct (agg_step ev ty g acc v) as [a'|f|k]; cbn [rbind]; try reflexivity.
-      rewrite (upd_enter agg _ [] s ty acc); [|reflexivity|exact Hg]. rewrite pop_enter. reflexivity.
-    + rewrite pop_enter. reflexivity.
+  intros H1 H2. unfold lframe. destruct g; cbn [frame_get]; rewrite H1; [reflexivity|]. rewrite H2. reflexivity.
 Qed.
+Lemma lframe_iv (g : guard) (n : nat) (iv : string) (v : value) (b : bool) (st : state) :
+  lookup iv (enter (lframe g n iv v b) st) = Some ("auto", v).
+Proof. unfold lookup, enter, lframe. cbn [frames frames_get frame_get]. rewrite String.eqb_refl. reflexivity. Qed.
+Lemma lframe_fget_iv (g : guard) (n : nat) (iv : string) (v : value) (b : bool) (st : state) :
+  fget iv (enter (lframe g n iv v b) st) = Some ("auto", v).
+Proof. unfold fget, enter, lframe. cbn [frames frames_get frame_get]. rewrite String.eqb_refl. reflexivity. Qed.
 
-Lemma loop_agg (brs : list branch) (ev : event) (iv : string) (ar : bool) (agg ty : string) (g : aggk) (ps : list pred) (l : list value) :
+Lemma loop_agg (brs : list branch) (ev : event) (iv : string) (ar : bool) (agg ty : string) (g : aggk) (gd : guard) (n : nat) (l : list value) :
   forall (st : state) (acc : value),
-  fget agg st = Some (ty, acc) -> acc <> VUninit -> String.eqb agg iv = false ->
-  nstuck (agg_loop ev ty g ps l acc) ->
-  for_loop brs ev iv (Blk [] (one_stmt (fi_guards (map (tpred iv ar) ps) (agg_update agg (agg_summand iv ar g))))) l st =
-  match agg_loop ev ty g ps l acc with
+  fget agg st = Some (ty, acc) -> acc <> VUninit -> String.eqb agg iv = false -> String.eqb agg (bo_name n) = false ->
+  String.eqb iv (bo_name n) = false -> String.eqb (bo_name n) iv = false ->
+  nstuck (agg_loop ev ty g gd l acc) ->
+  for_loop brs ev iv (loop_block iv ar gd n (one_stmt (agg_update agg (agg_summand iv ar g)))) l st =
+  match agg_loop ev ty g gd l acc with
   | ROk z => ROk (upd agg z st)
   | RFault f => RFault f
   | RStuck k => RStuck k
   end.
 Proof.
-  induction l as [|v r IH]; intros st acc Hg Hu Hne Hn.
+  induction l as [|v r IH]; intros st acc Hg Hu Hne Hnb Hib Hbi Hn.
   - cbn [agg_loop]. rewrite for_loop_nil. rewrite (upd_same agg acc st ty Hg). reflexivity.
-  - cbn [agg_loop] in *. rewrite for_loop_cons, exec_block_eq. cbn [run_decls rbind].
-    rewrite exec_one, guards_exec.
-    assert (Hl : lookup iv (enter [(iv, ("auto", v))] st) = Some ("auto", v)).
-    { unfold lookup, enter. cbn. rewrite String.eqb_refl. reflexivity. }
-    assert (Hg' : fget agg (enter [(iv, ("auto", v))] st) = Some (ty, acc)).
-    { rewrite fget_enter; [exact Hg|]. cbn. rewrite Hne. reflexivity. }
-    assert (Hn' : nstuck (rbind (passes ev v ps) (fun b => if b then agg_step ev ty g acc v else ROk acc))).
-    { destruct (passes ev v ps) as [[|]|f|k]; cbn [rbind] in *; [exact (nstuck_bind_l _ _ Hn)|exact I|exact I|exact Hn]. }
-    rewrite (nest_agg brs ev iv ar agg ty "auto" g v ps _ acc Hl Hg' Hu Hn').
-    destruct (passes ev v ps) as [b|f|k]; cbn [rbind] in *; [|reflexivity|destruct Hn].
+  - cbn [agg_loop] in *. rewrite for_loop_cons.
+    rewrite (loop_block_exec brs ev iv ar gd n (one_stmt (agg_update agg (agg_summand iv ar g))) v st eq_refl Hib Hbi (nstuck_bind_l _ _ Hn)).
+    destruct (gpasses ev v gd) as [b|f|k]; cbn [rbind] in *; [|reflexivity|destruct Hn].
     destruct b; cbn [rbind].
-    + destruct (agg_step ev ty g acc v) as [a'|f|k] eqn:Es; cbn [rbind] in *; [|reflexivity|destruct Hn].
-      rewrite (upd_enter agg _ _ st ty acc); [|cbn; rewrite Hne; reflexivity|exact Hg].
+    + set (s := enter (lframe gd n iv v true) st).
+      assert (Hg' : fget agg s = Some (ty, acc)).
+      { unfold s. rewrite fget_enter; [exact Hg|]. apply lframe_other; assumption. }
+      rewrite exec_one.
+      rewrite (exec_agg_update brs ev iv ar agg ty "auto" g s acc v Hg' Hu (lframe_iv gd n iv v true st) (nstuck_bind_l _ _ Hn)).
+      destruct (agg_step ev ty g acc v) as [a'|f|k] eqn:Es; cbn [rbind] in *; [|reflexivity|destruct Hn].
+      unfold s. rewrite (upd_enter agg _ _ st ty acc); [|apply lframe_other; assumption|exact Hg].
       rewrite pop_enter.
       destruct (assign_upd agg a' st ty acc Hg) as (_ & _ & Hg1 & _).
-      rewrite (IH _ a' Hg1 (arithable_not_uninit _ (agg_step_ok _ _ _ _ _ _ Es)) Hne Hn).
-      destruct (agg_loop ev ty g ps r a') as [z|f|k]; try reflexivity.
+      rewrite (IH _ a' Hg1 (arithable_not_uninit _ (agg_step_ok _ _ _ _ _ _ Es)) Hne Hnb Hib Hbi Hn).
+      destruct (agg_loop ev ty g gd r a') as [z|f|k]; try reflexivity.
       rewrite (upd_upd agg _ _ st ty acc Hg). reflexivity.
-    + rewrite pop_enter. apply (IH st acc Hg Hu Hne Hn).
+    + apply (IH st acc Hg Hu Hne Hnb Hib Hbi Hn).
 Qed.
 
 (* the two statements of one aggregate, run in a state in which its two variables are declared *)
 Lemma count_exec (brs : list branch) (ev : event) (idiom : string) (k : cnt) (n : nat) (st : state) (tcv : string) (v0 : value) :
   fget (cv_name k n) st = Some (tcv, v0) ->
-  fget (agg_name n) st = Some (agg_type k, conv (agg_type k) (VInt 0)) ->
-  String.eqb (agg_name n) (cv_name k n) = false ->
-  String.eqb (agg_name n) (iv_name n) = false ->
+  fget (kagg k n) st = Some (agg_type k, conv (agg_type k) (VInt 0)) ->
+  String.eqb (kagg k n) (cv_name k n) = false ->
+  String.eqb (kagg k n) (iv_name n) = false -> String.eqb (kagg k n) (bo_name n) = false ->
   match assoc_ss (c_ctype (k_coll k), c_bank (k_coll k)) (ev_colls ev) with
   | None => exec_stmts brs ev (tcount_stmts idiom k n) st = RFault FRetrieve
   | Some (VVec l) =>
-      match agg_loop ev (agg_type k) (k_agg k) (k_preds k) l (conv (agg_type k) (VInt 0)) with
+      match agg_loop ev (agg_type k) (k_agg k) (k_guard k) l (conv (agg_type k) (VInt 0)) with
       | ROk z => exec_stmts brs ev (tcount_stmts idiom k n) st =
-                 ROk (upd (agg_name n) z (upd (cv_name k n) (VVec l) st))
+                 ROk (upd (kagg k n) z (upd (cv_name k n) (VVec l) st))
       | RFault f => exec_stmts brs ev (tcount_stmts idiom k n) st = RFault f
       | RStuck _ => True
       end
@@ -331,7 +580,7 @@ Lemma count_exec (brs : list branch) (ev : event) (idiom : string) (k : cnt) (n 
   | Some _ => True
   end.
 Proof.
-  intros Hcv Hagg Hne1 Hne2. unfold tcount_stmts. rewrite exec_stmts_cons.
+  intros Hcv Hagg Hne1 Hne2 Hne3. unfold tcount_stmts. rewrite exec_stmts_cons.
   cbn [exec_stmt].
   destruct (assoc_ss (c_ctype (k_coll k), c_bank (k_coll k)) (ev_colls ev)) as [c|] eqn:Ea; [|reflexivity].
   destruct (assign_upd (cv_name k n) c st tcv v0 Hcv) as (Has & _ & Hcv1 & Hoth & _).
@@ -340,38 +589,21 @@ Proof.
     with (rbind (eval ev (upd (cv_name k n) c st) (CVar (cv_name k n)))
                 (fun x => match x with VNull => RFault FNullDeref | _ => ROk x end)).
   rewrite eval_var, (lookup_fget _ _ _ Hcv1).
-  assert (Hagg1 : fget (agg_name n) (upd (cv_name k n) c st) = Some (agg_type k, conv (agg_type k) (VInt 0))).
+  assert (Hagg1 : fget (kagg k n) (upd (cv_name k n) c st) = Some (agg_type k, conv (agg_type k) (VInt 0))).
   { rewrite (Hoth _ Hne1). exact Hagg. }
   assert (Hu : conv (agg_type k) (VInt 0) <> VUninit).
   { apply arithable_not_uninit, conv_arithable. right. cbn. eauto. }
+  assert (Hib : String.eqb (iv_name n) (bo_name n) = false) by (apply nm_neq; [reflexivity|reflexivity|lia]).
+  assert (Hbi : String.eqb (bo_name n) (iv_name n) = false) by (apply nm_neq; [reflexivity|reflexivity|lia]).
   destruct c; cbn [rbind]; try exact I; try reflexivity.
-  destruct (agg_loop ev (agg_type k) (k_agg k) (k_preds k) l (conv (agg_type k) (VInt 0))) as [z|f|kk] eqn:Ec; [| |exact I].
-  - rewrite (loop_agg brs ev _ _ _ _ _ _ l _ _ Hagg1 Hu Hne2); rewrite Ec; [reflexivity|exact I].
-  - rewrite (loop_agg brs ev _ _ _ _ _ _ l _ _ Hagg1 Hu Hne2); rewrite Ec; [reflexivity|exact I].
+  destruct (agg_loop ev (agg_type k) (k_agg k) (k_guard k) l (conv (agg_type k) (VInt 0))) as [z|f|kk] eqn:Ec; [| |exact I].
+  - rewrite (loop_agg brs ev _ _ _ _ _ _ n l _ _ Hagg1 Hu Hne2 Hne3 Hib Hbi); rewrite Ec; [reflexivity|exact I].
+  - rewrite (loop_agg brs ev _ _ _ _ _ _ n l _ _ Hagg1 Hu Hne2 Hne3 Hib Hbi); rewrite Ec; [reflexivity|exact I].
 Qed.
-
-(* ---------- names ---------- *)
-Definition first_not_underscore (b : string) : bool :=
-  match b with String c _ => negb (Ascii.eqb c "_"%char) | EmptyString => false end.
-Definition base_ok (b : string) : bool := negb (last_digit b) && first_not_underscore b.
-
-Lemma nm_inj (b1 b2 : string) (i j : nat) :
-  last_digit b1 = false -> last_digit b2 = false -> nm b1 i = nm b2 j -> i = j.
-Proof. intros H1 H2 H. unfold nm in H. destruct (name_index_split b1 b2 i j H1 H2 H) as [_ E]. exact E. Qed.
-
-Lemma nm_neq (b1 b2 : string) (i j : nat) :
-  last_digit b1 = false -> last_digit b2 = false -> i <> j -> String.eqb (nm b1 i) (nm b2 j) = false.
-Proof.
-  intros H1 H2 Hne. destruct (String.eqb (nm b1 i) (nm b2 j)) eqn:E; [|reflexivity].
-  apply String.eqb_eq in E. exfalso. apply Hne. exact (nm_inj b1 b2 i j H1 H2 E).
-Qed.
-
-Lemma nm_first (b : string) (i : nat) : first_not_underscore b = true -> first_not_underscore (nm b i) = true.
-Proof. destruct b; cbn; [discriminate|auto]. Qed.
 
 (* ---------- the translator, component-wise ---------- *)
 Fixpoint size (e : ex) : nat :=
-  match e with EInt _ => 0 | ECount _ => 3 | EBin _ a b => size a + size b end.
+  match e with EInt _ => 0 | ECount k => 3 + gsize (k_guard k) | EBin _ a b => size a + size b end.
 Fixpoint tds (e : ex) (n : nat) : list decl :=
   match e with EInt _ => [] | ECount k => tcount_decls k n | EBin _ a b => tds a n ++ tds b (n + size a) end.
 Fixpoint tss (idiom : string) (e : ex) (n : nat) : stmts :=
@@ -381,20 +613,20 @@ Fixpoint tss (idiom : string) (e : ex) (n : nat) : stmts :=
   end.
 Fixpoint tc (e : ex) (n : nat) : cexp :=
   match e with
-  | EInt z => CInt z | ECount _ => CVar (agg_name n)
+  | EInt z => CInt z | ECount k => CVar (kagg k n)
   | EBin o a b => CBin (op_str o) (tc a n) (tc b (n + size a))
   end.
 Lemma te_split (idiom : string) (e : ex) : forall n, te idiom e n = (tds e n, tss idiom e n, tc e n, n + size e).
 Proof.
   induction e as [z|k|o a IHa b IHb]; intro n; cbn [te tds tss tc size].
   - rewrite Nat.add_0_r. reflexivity.
-  - replace (n + 3) with (S (S (S n))) by lia. reflexivity.
+  - replace (n + (3 + gsize (k_guard k))) with (S (S (S n)) + gsize (k_guard k)) by lia. reflexivity.
   - rewrite IHa, IHb. rewrite Nat.add_assoc. reflexivity.
 Qed.
 
 Fixpoint vars (e : ex) (n : nat) : list string :=
   match e with
-  | EInt _ => [] | ECount k => [cv_name k n; agg_name n]
+  | EInt _ => [] | ECount k => [cv_name k n; kagg k n]
   | EBin _ a b => vars a n ++ vars b (n + size a)
   end.
 Fixpoint bases_ok (e : ex) : bool :=
@@ -408,7 +640,7 @@ Proof.
   - unfold base_ok in Hb. apply andb_prop in Hb as [H1 H2]. apply negb_true_iff in H1.
     destruct Hin as [<-|[<-|[]]].
     + exists (c_base (k_coll k)), n. repeat split; auto; lia.
-    + exists "aggResult", (S (S n)). repeat split; auto; lia.
+    + exists "aggResult", (S (S (n + gsize (k_guard k)))). repeat split; auto; lia.
   - apply andb_prop in Hb as [Ha Hb']. apply in_app_or in Hin as [Hin|Hin].
     + destruct (IHa n x Ha Hin) as (bb & i & E & L & F & R). exists bb, i. repeat split; auto; lia.
     + destruct (IHb _ x Hb' Hin) as (bb & i & E & L & F & R). exists bb, i. repeat split; auto; lia.
@@ -442,12 +674,12 @@ Proof.
     destruct p as [px|px], q as [qy|qy]; destruct o; cbn; eexists; split; try reflexivity; right; cbn; eauto.
 Qed.
 
-Lemma agg_loop_arithable (ev : event) (ty : string) (g : aggk) (ps : list pred) (l : list value) : forall acc z,
+Lemma agg_loop_arithable (ev : event) (ty : string) (g : aggk) (ps : guard) (l : list value) : forall acc z,
   arithable acc -> agg_loop ev ty g ps l acc = ROk z -> arithable z.
 Proof.
   induction l as [|v r IH]; intros acc z Ha H; cbn [agg_loop] in H.
   - inversion H; subst. exact Ha.
-  - destruct (passes ev v ps) as [[|]|f|k]; cbn [rbind] in H; try discriminate.
+  - destruct (gpasses ev v ps) as [[|]|f|k]; cbn [rbind] in H; try discriminate.
     + destruct (agg_step ev ty g acc v) as [a'|f|k] eqn:Es; cbn [rbind] in H; try discriminate.
       eapply IH; [|exact H]. eapply agg_step_ok. exact Es.
     + eapply IH; eauto.
@@ -480,7 +712,7 @@ Fixpoint declared (e : ex) (n : nat) (st : state) : Prop :=
   match e with
   | EInt _ => True
   | ECount k => (exists t v, fget (cv_name k n) st = Some (t, v)) /\
-                fget (agg_name n) st = Some (agg_type k, conv (agg_type k) (VInt 0))
+                fget (kagg k n) st = Some (agg_type k, conv (agg_type k) (VInt 0))
   | EBin _ a b => declared a n st /\ declared b (n + size a) st
   end.
 
@@ -506,8 +738,8 @@ Lemma tc_ext (ev : event) (e : ex) : forall n s1 s2,
 Proof.
   induction e as [z|k|o a IHa b IHb]; intros n s1 s2 D H; cbn [tc vars] in *.
   - reflexivity.
-  - destruct (D (agg_name n)) as [tv E1]; [right; left; reflexivity|].
-    assert (E2 : fget (agg_name n) s2 = Some tv) by (rewrite H; [exact E1|right; left; reflexivity]).
+  - destruct (D (kagg k n)) as [tv E1]; [right; left; reflexivity|].
+    assert (E2 : fget (kagg k n) s2 = Some tv) by (rewrite H; [exact E1|right; left; reflexivity]).
     rewrite !eval_var, (lookup_fget _ _ _ E1), (lookup_fget _ _ _ E2). reflexivity.
   - change (eval ev s2 (CBin (op_str o) (tc a n) (tc b (n + size a))))
       with (rbind (eval ev s2 (tc a n)) (fun x => rbind (eval ev s2 (tc b (n + size a))) (fun y => arith (op_str o) x y))).
@@ -533,27 +765,28 @@ Proof.
   - exists st. repeat split; auto. intros x [].
   - destruct D as [(tcv & v0 & Dcv) Dagg].
     unfold base_ok in Hb. apply andb_prop in Hb as [Hl _]. apply negb_true_iff in Hl.
-    assert (N1 : String.eqb (agg_name n) (cv_name k n) = false) by (apply nm_neq; [reflexivity|exact Hl|lia]).
-    assert (N2 : String.eqb (agg_name n) (iv_name n) = false) by (apply nm_neq; [reflexivity|reflexivity|lia]).
-    pose proof (count_exec brs ev idiom k n st tcv v0 Dcv Dagg N1 N2) as C.
+    assert (N1 : String.eqb (kagg k n) (cv_name k n) = false) by (apply nm_neq; [reflexivity|exact Hl|lia]).
+    assert (N2 : String.eqb (kagg k n) (iv_name n) = false) by (apply nm_neq; [reflexivity|reflexivity|lia]).
+    assert (N4 : String.eqb (kagg k n) (bo_name n) = false) by (apply nm_neq_base; [reflexivity|reflexivity|discriminate]).
+    pose proof (count_exec brs ev idiom k n st tcv v0 Dcv Dagg N1 N2 N4) as C.
     unfold dcount in *.
     destruct (assoc_ss (c_ctype (k_coll k), c_bank (k_coll k)) (ev_colls ev)) as [c|]; cbn [rbind]; [|exact C].
     destruct c; cbn [rbind]; try exact I; try exact C.
-    destruct (agg_loop ev (agg_type k) (k_agg k) (k_preds k) l (conv (agg_type k) (VInt 0))) as [z|f|kk] eqn:El; cbn [rbind]; [|exact C|exact I].
+    destruct (agg_loop ev (agg_type k) (k_agg k) (k_guard k) l (conv (agg_type k) (VInt 0))) as [z|f|kk] eqn:El; cbn [rbind]; [|exact C|exact I].
     destruct (assign_upd (cv_name k n) (VVec l) st tcv v0 Dcv) as (_ & _ & G1 & O1 & M1 & R1).
-    assert (Dagg1 : fget (agg_name n) (upd (cv_name k n) (VVec l) st) = Some (agg_type k, conv (agg_type k) (VInt 0))) by (rewrite (O1 _ N1); exact Dagg).
-    destruct (assign_upd (agg_name n) z _ (agg_type k) _ Dagg1) as (_ & _ & G2 & O2 & M2 & R2).
+    assert (Dagg1 : fget (kagg k n) (upd (cv_name k n) (VVec l) st) = Some (agg_type k, conv (agg_type k) (VInt 0))) by (rewrite (O1 _ N1); exact Dagg).
+    destruct (assign_upd (kagg k n) z _ (agg_type k) _ Dagg1) as (_ & _ & G2 & O2 & M2 & R2).
     assert (Zu : z <> VUninit).
     { apply arithable_not_uninit. eapply agg_loop_arithable; [|exact El]. apply conv_arithable. right. cbn. eauto. }
     eexists. split; [exact C|]. split; [congruence|]. split; [congruence|]. split; [|split].
     + intros y Hy.
-      assert (Y1 : String.eqb y (agg_name n) = false).
-      { destruct (String.eqb y (agg_name n)) eqn:E; [|reflexivity]. apply String.eqb_eq in E. exfalso. apply Hy. right; left; auto. }
+      assert (Y1 : String.eqb y (kagg k n) = false).
+      { destruct (String.eqb y (kagg k n)) eqn:E; [|reflexivity]. apply String.eqb_eq in E. exfalso. apply Hy. right; left; auto. }
       assert (Y2 : String.eqb y (cv_name k n) = false).
       { destruct (String.eqb y (cv_name k n)) eqn:E; [|reflexivity]. apply String.eqb_eq in E. exfalso. apply Hy. left; auto. }
       rewrite (O2 _ Y1), (O1 _ Y2). reflexivity.
     + intros x [<-|[<-|[]]].
-      * assert (N3 : String.eqb (cv_name k n) (agg_name n) = false) by (rewrite String.eqb_sym; exact N1).
+      * assert (N3 : String.eqb (cv_name k n) (kagg k n) = false) by (rewrite String.eqb_sym; exact N1).
         rewrite (O2 _ N3), G1. eauto.
       * rewrite G2. eauto.
     + rewrite eval_var, (lookup_fget _ _ _ G2). destruct z; try reflexivity. contradiction.
@@ -632,26 +865,26 @@ Proof.
   induction e as [z|k|o a IHa b IHb]; intros n st Hb Hf; cbn [tds vars declared bases_ok] in *.
   - exists st. cbn. repeat split; auto.
   - unfold base_ok in Hb. apply andb_prop in Hb as [Hl _]. apply negb_true_iff in Hl.
-    assert (N1 : String.eqb (agg_name n) (cv_name k n) = false) by (apply nm_neq; [reflexivity|exact Hl|lia]).
+    assert (N1 : String.eqb (kagg k n) (cv_name k n) = false) by (apply nm_neq; [reflexivity|exact Hl|lia]).
     unfold tcount_decls. cbn [run_decls d_init d_name d_type eval rbind].
     set (v0 := default_value (c_ctype (k_coll k))).
     destruct (declare_spec (cv_name k n) (c_ctype (k_coll k)) v0 st) as (G1 & O1 & M1 & R1); [apply Hf; left; reflexivity|].
     set (st1 := declare (cv_name k n) (c_ctype (k_coll k)) v0 st) in *.
-    assert (F2 : fget (agg_name n) st1 = None) by (rewrite (O1 _ N1); apply Hf; right; left; reflexivity).
+    assert (F2 : fget (kagg k n) st1 = None) by (rewrite (O1 _ N1); apply Hf; right; left; reflexivity).
     assert (Ei : init_value (agg_type k) (VInt 0) = conv (agg_type k) (VInt 0)).
     { unfold init_value. destruct (is_vector_type (agg_type k)) eqn:Ev; [|reflexivity].
       exfalso. unfold agg_type in Ev. destruct (k_agg k) as [|body]; [discriminate|].
       destruct (pa_type_cases body) as [E|E]; rewrite E in Ev; discriminate. }
     rewrite Ei.
-    destruct (declare_spec (agg_name n) (agg_type k) (conv (agg_type k) (VInt 0)) st1 F2) as (G2 & O2 & M2 & R2).
+    destruct (declare_spec (kagg k n) (agg_type k) (conv (agg_type k) (VInt 0)) st1 F2) as (G2 & O2 & M2 & R2).
     eexists. split; [reflexivity|]. split; [split|].
     + exists (c_ctype (k_coll k)), v0.
-      assert (N3 : String.eqb (cv_name k n) (agg_name n) = false) by (rewrite String.eqb_sym; exact N1).
+      assert (N3 : String.eqb (cv_name k n) (kagg k n) = false) by (rewrite String.eqb_sym; exact N1).
       rewrite (O2 _ N3). exact G1.
     + exact G2.
     + split; [congruence|]. split; [congruence|]. intros y Hy.
-      assert (Y1 : String.eqb y (agg_name n) = false).
-      { destruct (String.eqb y (agg_name n)) eqn:E; [|reflexivity]. apply String.eqb_eq in E. exfalso. apply Hy. right; left; auto. }
+      assert (Y1 : String.eqb y (kagg k n) = false).
+      { destruct (String.eqb y (kagg k n)) eqn:E; [|reflexivity]. apply String.eqb_eq in E. exfalso. apply Hy. right; left; auto. }
       assert (Y2 : String.eqb y (cv_name k n) = false).
       { destruct (String.eqb y (cv_name k n)) eqn:E; [|reflexivity]. apply String.eqb_eq in E. exfalso. apply Hy. left; auto. }
       rewrite (O2 _ Y1), (O1 _ Y2). reflexivity.
@@ -716,7 +949,7 @@ Proof.
 Qed.
 
 (* when every predicate evaluation succeeds, the streaming Count is the length of the filtered list *)
-Lemma count_is_filter_length (ev : event) (ps : list pred) (f : value -> bool) (l : list value) : forall a,
+Lemma count_is_filter_length (ev : event) (ps : guard) (f : value -> bool) (l : list value) : forall a,
   passes_total ev ps l f ->
   agg_loop ev "int" ACount ps l (VInt a) = ROk (VInt (a + Z.of_nat (List.length (filter f l))))%Z.
 Proof.
@@ -813,68 +1046,37 @@ Proof.
   rewrite Hlk. rewrite vec_elem_type. rewrite Ha. reflexivity.
 Qed.
 
-Lemma nest_push (brs : list branch) (ev : event) (iv : string) (ar : bool) (mem t : string) (body : pa) (v : value) (ps : list pred) :
-  forall (s : state) (acc : list value),
-  lookup iv s = Some (t, v) -> fget mem s = None ->
-  mget mem s = Some (vec_type (pa_type body), VVec acc) ->
-  nstuck (rbind (passes ev v ps) (fun b => if b then dpa ev v body else ROk VNull)) ->
-  nest_run ev (exec_stmt brs ev (SPush mem None (tpa iv ar body))) (map (tpred iv ar) ps) s =
-  match passes ev v ps with
-  | ROk true => match dpa ev v body with
-                | ROk x => ROk (updm mem (VVec (acc ++ [conv (pa_type body) x])) s)
-                | RFault f => RFault f | RStuck k => RStuck k end
-  | ROk false => ROk s
-  | RFault f => RFault f
-  | RStuck k => RStuck k
-  end.
-Proof.
-  induction ps as [|p r IH]; intros s acc Hl Hf Hm Hn; cbn [map nest_run passes] in *.
-  - cbn [rbind] in Hn. apply (exec_push brs ev iv ar mem t body s acc v Hf Hm Hl Hn).
-  - rewrite dpred_dpredv in *.
-    pose proof (nstuck_bind_l _ _ (nstuck_bind_l _ _ (nstuck_bind_l _ _ Hn))) as Hv.
-    rewrite (eval_tpred ev s iv ar t v p Hl Hv).
-    destruct (dpredv ev v p) as [w|f|k]; cbn [rbind] in *; [|reflexivity|destruct Hv].
-    destruct (truth w) as [b|f|k]; cbn [rbind] in *; [|reflexivity|destruct Hn].
-    destruct b; [|reflexivity].
-    rewrite (IH (enter [] s) acc); [| exact Hl | rewrite fget_enter; [exact Hf|reflexivity] | exact Hm | exact Hn].
-    destruct (passes ev v r) as [[|]|f|k]; cbn [rbind] in *; try reflexivity.
-    + destruct (dpa ev v body) as [x|f|k]; cbn [rbind]; try reflexivity.
-      rewrite updm_enter, pop_enter. reflexivity.
-    + rewrite pop_enter. reflexivity.
-Qed.
-
-Lemma loop_push (brs : list branch) (ev : event) (iv : string) (ar : bool) (mem : string) (body : pa) (ps : list pred) (l : list value) :
+Lemma loop_push (brs : list branch) (ev : event) (iv : string) (ar : bool) (mem : string) (body : pa) (ps : guard) (n : nat) (l : list value) :
   forall (st : state) (acc : list value),
-  fget mem st = None -> String.eqb mem iv = false ->
+  fget mem st = None -> String.eqb mem iv = false -> String.eqb mem (bo_name n) = false ->
+  String.eqb iv (bo_name n) = false -> String.eqb (bo_name n) iv = false ->
   mget mem st = Some (vec_type (pa_type body), VVec acc) ->
   nstuck (vec_loop ev (pa_type body) body ps l acc) ->
-  for_loop brs ev iv (Blk [] (one_stmt (fi_guards (map (tpred iv ar) ps) (SPush mem None (tpa iv ar body))))) l st =
+  for_loop brs ev iv (loop_block iv ar ps n (one_stmt (SPush mem None (tpa iv ar body)))) l st =
   match vec_loop ev (pa_type body) body ps l acc with
   | ROk vs => ROk (updm mem (VVec vs) st)
   | RFault f => RFault f
   | RStuck k => RStuck k
   end.
 Proof.
-  induction l as [|v r IH]; intros st acc Hf Hne Hm Hn.
+  induction l as [|v r IH]; intros st acc Hf Hne Hnb Hib Hbi Hm Hn.
   - cbn [vec_loop]. rewrite for_loop_nil. rewrite (updm_same mem _ st _ Hm). reflexivity.
-  - cbn [vec_loop] in *. rewrite for_loop_cons, exec_block_eq. cbn [run_decls rbind].
-    rewrite exec_one, guards_exec.
-    assert (Hl : lookup iv (enter [(iv, ("auto", v))] st) = Some ("auto", v)).
-    { unfold lookup, enter. cbn. rewrite String.eqb_refl. reflexivity. }
-    assert (Hf' : fget mem (enter [(iv, ("auto", v))] st) = None).
-    { rewrite fget_enter; [exact Hf|]. cbn. rewrite Hne. reflexivity. }
-    assert (Hn' : nstuck (rbind (passes ev v ps) (fun b => if b then dpa ev v body else ROk VNull))).
-    { destruct (passes ev v ps) as [[|]|f|k]; cbn [rbind] in *; [exact (nstuck_bind_l _ _ Hn)|exact I|exact I|exact Hn]. }
-    rewrite (nest_push brs ev iv ar mem "auto" body v ps _ acc Hl Hf' Hm Hn').
-    destruct (passes ev v ps) as [b|f|k]; cbn [rbind] in *; [|reflexivity|destruct Hn].
+  - cbn [vec_loop] in *. rewrite for_loop_cons.
+    rewrite (loop_block_exec brs ev iv ar ps n (one_stmt (SPush mem None (tpa iv ar body))) v st eq_refl Hib Hbi (nstuck_bind_l _ _ Hn)).
+    destruct (gpasses ev v ps) as [b|f|k]; cbn [rbind] in *; [|reflexivity|destruct Hn].
     destruct b; cbn [rbind].
-    + destruct (dpa ev v body) as [x|f|k] eqn:Ex; cbn [rbind] in *; [|reflexivity|destruct Hn].
-      rewrite updm_enter, pop_enter.
+    + set (s := enter (lframe ps n iv v true) st).
+      assert (Hf' : fget mem s = None).
+      { unfold s. rewrite fget_enter; [exact Hf|]. apply lframe_other; assumption. }
+      rewrite exec_one.
+      rewrite (exec_push brs ev iv ar mem "auto" body s acc v Hf' Hm (lframe_iv ps n iv v true st) (nstuck_bind_l _ _ Hn)).
+      destruct (dpa ev v body) as [x|f|k] eqn:Ex; cbn [rbind] in *; [|reflexivity|destruct Hn].
+      unfold s. rewrite updm_enter, pop_enter.
       destruct (assign_updm mem (VVec (acc ++ [conv (pa_type body) x])) st _ _ Hf Hm) as (_ & _ & Hm1 & _).
-      rewrite (IH _ _ (eq_trans (fget_updm _ _ _ _) Hf) Hne Hm1 Hn).
+      rewrite (IH _ _ (eq_trans (fget_updm _ _ _ _) Hf) Hne Hnb Hib Hbi Hm1 Hn).
       destruct (vec_loop ev (pa_type body) body ps r (acc ++ [conv (pa_type body) x])) as [vs|f|k]; try reflexivity.
       rewrite (updm_updm mem _ _ st _ _ Hm). reflexivity.
-    + rewrite pop_enter. apply (IH st acc Hf Hne Hm Hn).
+    + apply (IH st acc Hf Hne Hnb Hib Hbi Hm Hn).
 Qed.
 
 (* ---------- one First column ---------- *)
@@ -885,12 +1087,6 @@ Definition first_state (isf mem : string) (found o : option value) (st : state) 
   | _, _ => st
   end.
 
-Lemma lookup_upd_other (y x : string) (v : value) (st : state) (t : string) (old : value) :
-  fget x st = Some (t, old) -> String.eqb y x = false -> lookup y (upd x v st) = lookup y st.
-Proof.
-  intros H Hne. destruct (assign_upd x v st t old H) as (_ & _ & _ & O & M & _).
-  unfold lookup. fold (fget y (upd x v st)). fold (fget y st). rewrite (O y Hne), M. reflexivity.
-Qed.
 
 Lemma exec_capture (brs : list branch) (ev : event) (iv : string) (ar : bool) (isf mem t : string) (body : pa)
       (s : state) (armed : bool) (old v : value) :
@@ -931,84 +1127,46 @@ Proof.
   rewrite Hlk2, Ha2. cbn [rbind]. rewrite updm_enter, pop_enter. reflexivity.
 Qed.
 
-Lemma nest_first (brs : list branch) (ev : event) (iv : string) (ar : bool) (isf mem t : string) (body : pa) (v : value) (ps : list pred) :
-  forall (s : state) (armed : bool) (old : value),
-  lookup iv s = Some (t, v) -> String.eqb iv isf = false ->
-  fget isf s = Some ("bool", VBool armed) -> fget mem s = None -> mget mem s = Some (pa_type body, old) ->
-  nstuck (rbind (passes ev v ps) (fun b => if b && armed then dpa ev v body else ROk VNull)) ->
-  nest_run ev (exec_stmt brs ev (fi_capture isf [] (one_stmt (SSet mem None (tpa iv ar body))))) (map (tpred iv ar) ps) s =
-  match passes ev v ps with
-  | ROk true => if armed then match dpa ev v body with
-                              | ROk x => ROk (updm mem (conv (pa_type body) x) (upd isf (VBool false) s))
-                              | RFault f => RFault f | RStuck k => RStuck k end
-                else ROk s
-  | ROk false => ROk s
-  | RFault f => RFault f
-  | RStuck k => RStuck k
-  end.
-Proof.
-  induction ps as [|p r IH]; intros s armed old Hl Hne Hf Hm Hmg Hn; cbn [map nest_run passes] in *.
-  - cbn [rbind andb] in Hn.
-    apply (exec_capture brs ev iv ar isf mem t body s armed old v Hf Hm Hmg Hl Hne).
-    intro Ea. subst armed. exact Hn.
-  - rewrite dpred_dpredv in *.
-    pose proof (nstuck_bind_l _ _ (nstuck_bind_l _ _ (nstuck_bind_l _ _ Hn))) as Hv.
-    rewrite (eval_tpred ev s iv ar t v p Hl Hv).
-    destruct (dpredv ev v p) as [w|f|k]; cbn [rbind] in *; [|reflexivity|destruct Hv].
-    destruct (truth w) as [b|f|k]; cbn [rbind] in *; [|reflexivity|destruct Hn].
-    destruct b; [|reflexivity].
-    assert (Hl' : lookup iv (enter [] s) = Some (t, v)).
-    { unfold lookup in *. cbn [frames enter frames_get frame_get members]. exact Hl. }
-    rewrite (IH (enter [] s) armed old Hl' Hne); [| rewrite fget_enter; [exact Hf|reflexivity] | rewrite fget_enter; [exact Hm|reflexivity] | exact Hmg | exact Hn].
-    destruct (passes ev v r) as [[|]|f|k]; cbn [rbind] in *; try reflexivity.
-    + destruct armed; [|cbn [rbind]; rewrite pop_enter; reflexivity].
-      destruct (dpa ev v body) as [x|f|k]; cbn [rbind]; try reflexivity.
-      rewrite (upd_enter isf (VBool false) [] s "bool" (VBool true) eq_refl Hf). rewrite updm_enter, pop_enter. reflexivity.
-    + rewrite pop_enter. reflexivity.
-Qed.
-
-
-Lemma first_loop_some (ev : event) (ty : string) (body : pa) (ps : list pred) (l : list value) : forall (x : value) (o : option value),
+Lemma first_loop_some (ev : event) (ty : string) (body : pa) (ps : guard) (l : list value) : forall (x : value) (o : option value),
   first_loop ev ty body ps l (Some x) = ROk o -> o = Some x.
 Proof.
   induction l as [|v r IH]; intros x o H; cbn [first_loop] in H; [inversion H; reflexivity|].
-  destruct (passes ev v ps) as [[|]|f|k]; cbn [rbind] in H; try discriminate; eapply IH; exact H.
+  destruct (gpasses ev v ps) as [[|]|f|k]; cbn [rbind] in H; try discriminate; eapply IH; exact H.
 Qed.
 
-Lemma loop_first (brs : list branch) (ev : event) (iv : string) (ar : bool) (isf mem : string) (body : pa) (ps : list pred) (l : list value) :
+Lemma loop_first (brs : list branch) (ev : event) (iv : string) (ar : bool) (isf mem : string) (body : pa) (ps : guard) (n : nat) (l : list value) :
   forall (st : state) (found : option value) (old : value),
   String.eqb iv isf = false -> String.eqb isf iv = false -> String.eqb mem iv = false ->
+  String.eqb isf (bo_name n) = false -> String.eqb mem (bo_name n) = false ->
+  String.eqb iv (bo_name n) = false -> String.eqb (bo_name n) iv = false ->
   fget isf st = Some ("bool", VBool (match found with None => true | Some _ => false end)) ->
   fget mem st = None -> mget mem st = Some (pa_type body, match found with Some x => x | None => old end) ->
   nstuck (first_loop ev (pa_type body) body ps l found) ->
-  for_loop brs ev iv (Blk [] (one_stmt (fi_guards (map (tpred iv ar) ps) (fi_capture isf [] (one_stmt (SSet mem None (tpa iv ar body))))))) l st =
+  for_loop brs ev iv (loop_block iv ar ps n (one_stmt (fi_capture isf [] (one_stmt (SSet mem None (tpa iv ar body)))))) l st =
   match first_loop ev (pa_type body) body ps l found with
   | ROk o => ROk (first_state isf mem found o st)
   | RFault f => RFault f
   | RStuck k => RStuck k
   end.
 Proof.
-  induction l as [|v r IH]; intros st found old Hne1 Hne2 Hne3 Hf Hm Hmg Hn.
+  induction l as [|v r IH]; intros st found old Hne1 Hne2 Hne3 Hfb Hmb Hib Hbi Hf Hm Hmg Hn.
   - cbn [first_loop]. rewrite for_loop_nil. unfold first_state. destruct found; reflexivity.
-  - cbn [first_loop] in *. rewrite for_loop_cons, exec_block_eq. cbn [run_decls rbind].
-    rewrite exec_one, guards_exec.
-    set (s0 := enter [(iv, ("auto", v))] st).
-    assert (Hl : lookup iv s0 = Some ("auto", v)).
-    { unfold lookup, s0, enter. cbn. rewrite String.eqb_refl. reflexivity. }
-    assert (Hf0 : fget isf s0 = Some ("bool", VBool (match found with None => true | Some _ => false end))).
-    { unfold s0. rewrite fget_enter; [exact Hf|]. cbn. rewrite Hne2. reflexivity. }
-    assert (Hm0 : fget mem s0 = None).
-    { unfold s0. rewrite fget_enter; [exact Hm|]. cbn. rewrite Hne3. reflexivity. }
-    assert (Hn' : nstuck (rbind (passes ev v ps) (fun b => if b && (match found with None => true | Some _ => false end) then dpa ev v body else ROk VNull))).
-    { destruct (passes ev v ps) as [[|]|f|k]; cbn [rbind andb] in *; try exact I; [|exact Hn].
-      destruct found; [exact I|]. exact (nstuck_bind_l _ _ Hn). }
-    rewrite (nest_first brs ev iv ar isf mem "auto" body v ps s0 _ _ Hl Hne1 Hf0 Hm0 Hmg Hn').
-    destruct (passes ev v ps) as [b|f|k]; cbn [rbind] in *; [|reflexivity|destruct Hn].
+  - cbn [first_loop] in *. rewrite for_loop_cons.
+    rewrite (loop_block_exec brs ev iv ar ps n (one_stmt (fi_capture isf [] (one_stmt (SSet mem None (tpa iv ar body))))) v st eq_refl Hib Hbi (nstuck_bind_l _ _ Hn)).
+    destruct (gpasses ev v ps) as [b|f|k]; cbn [rbind] in *; [|reflexivity|destruct Hn].
     destruct b; cbn [rbind].
-    + destruct found as [x0|].
-      * cbn [rbind]. unfold s0. rewrite pop_enter. apply (IH st (Some x0) old Hne1 Hne2 Hne3 Hf Hm Hmg Hn).
+    + set (s0 := enter (lframe ps n iv v true) st).
+      assert (Hf0 : fget isf s0 = Some ("bool", VBool (match found with None => true | Some _ => false end))).
+      { unfold s0. rewrite fget_enter; [exact Hf|]. apply lframe_other; assumption. }
+      assert (Hm0 : fget mem s0 = None).
+      { unfold s0. rewrite fget_enter; [exact Hm|]. apply lframe_other; assumption. }
+      rewrite exec_one.
+      rewrite (exec_capture brs ev iv ar isf mem "auto" body s0 _ _ v Hf0 Hm0 Hmg (lframe_iv ps n iv v true st) Hne1).
+      2:{ intro Ea. destruct found; [discriminate|]. exact (nstuck_bind_l _ _ Hn). }
+      destruct found as [x0|].
+      * cbn [rbind]. unfold s0. rewrite pop_enter. apply (IH st (Some x0) old Hne1 Hne2 Hne3 Hfb Hmb Hib Hbi Hf Hm Hmg Hn).
       * destruct (dpa ev v body) as [x|f|k] eqn:Ex; cbn [rbind] in *; [|reflexivity|destruct Hn].
-        unfold s0. rewrite (upd_enter isf (VBool false) _ st "bool" (VBool true)); [|cbn; rewrite Hne2; reflexivity|exact Hf].
+        unfold s0. rewrite (upd_enter isf (VBool false) _ st "bool" (VBool true)); [|apply lframe_other; assumption|exact Hf].
         rewrite updm_enter, pop_enter.
         set (x' := conv (pa_type body) x) in *.
         destruct (assign_upd isf (VBool false) st _ _ Hf) as (_ & _ & G1 & O1 & _ & _).
@@ -1020,16 +1178,15 @@ Proof.
         set (st1 := updm mem x' (upd isf (VBool false) st)) in *.
         assert (Hf1 : fget isf st1 = Some ("bool", VBool false)) by (unfold st1; rewrite fget_updm; exact G1).
         assert (Hm2 : fget mem st1 = None) by (unfold st1; rewrite fget_updm; exact Hm1).
-        rewrite (IH st1 (Some x') old Hne1 Hne2 Hne3 Hf1 Hm2 G2 Hn).
+        rewrite (IH st1 (Some x') old Hne1 Hne2 Hne3 Hfb Hmb Hib Hbi Hf1 Hm2 G2 Hn).
         destruct (first_loop ev (pa_type body) body ps r (Some x')) as [o|f|k] eqn:Er; try reflexivity.
         rewrite (first_loop_some ev _ body ps r x' o Er). reflexivity.
-    + unfold s0. rewrite pop_enter. apply (IH st found old Hne1 Hne2 Hne3 Hf Hm Hmg Hn).
+    + apply (IH st found old Hne1 Hne2 Hne3 Hfb Hmb Hib Hbi Hf Hm Hmg Hn).
 Qed.
-
 
 (* First is the LINQ one: with total predicates, the value is the body on the first element of the filtered
    collection, and the query is undefined exactly when the filtered collection is empty *)
-Lemma first_loop_found_total (ev : event) (ty : string) (body : pa) (ps : list pred) (f : value -> bool) (l : list value) (x : value) :
+Lemma first_loop_found_total (ev : event) (ty : string) (body : pa) (ps : guard) (f : value -> bool) (l : list value) (x : value) :
   passes_total ev ps l f -> first_loop ev ty body ps l (Some x) = ROk (Some x).
 Proof.
   induction l as [|v r IH]; intro H; cbn [first_loop]; [reflexivity|].
@@ -1037,7 +1194,7 @@ Proof.
   assert (Hr : passes_total ev ps r f) by (intros w Hw; apply H; right; exact Hw).
   destruct (f v); apply (IH Hr).
 Qed.
-Lemma first_is_hd_filter (ev : event) (ty : string) (body : pa) (ps : list pred) (f : value -> bool) (g : value -> value) (l : list value) :
+Lemma first_is_hd_filter (ev : event) (ty : string) (body : pa) (ps : guard) (f : value -> bool) (g : value -> value) (l : list value) :
   passes_total ev ps l f -> (forall v, In v l -> f v = true -> dpa ev v body = ROk (g v)) ->
   first_loop ev ty body ps l None = ROk (option_map (fun v => conv ty (g v)) (hd_error (filter f l))).
 Proof.
@@ -1050,7 +1207,7 @@ Proof.
 Qed.
 
 
-Lemma first_col_linq (ev : event) (cr : collref) (ps : list pred) (body : pa) (line : string) (f : value -> bool) (g : value -> value) (l : list value) :
+Lemma first_col_linq (ev : event) (cr : collref) (ps : guard) (body : pa) (line : string) (f : value -> bool) (g : value -> value) (l : list value) :
   assoc_ss (c_ctype cr, c_bank cr) (ev_colls ev) = Some (VVec l) ->
   passes_total ev ps l f -> (forall v, In v l -> f v = true -> dpa ev v body = ROk (g v)) ->
   dcol ev (ColFirst cr ps body line) =
@@ -1064,17 +1221,17 @@ Qed.
 Lemma ex_size_size (e : ex) : ex_size e = size e.
 Proof. induction e; cbn; auto. Qed.
 
-Definition vec_stmts (idiom : string) (cr : collref) (ps : list pred) (body : pa) (mem : string) (n : nat) : stmts :=
+Definition vec_stmts (idiom : string) (cr : collref) (ps : guard) (body : pa) (mem : string) (n : nat) : stmts :=
   SCons (SFetch idiom (vcv_name cr n) (c_ctype cr) (c_bank cr) (fetch_lines idiom (c_ctype cr) (c_bank cr)))
         (one_stmt (tvec_loop cr ps body mem n)).
-Definition first_stmts (idiom : string) (cr : collref) (ps : list pred) (body : pa) (line mem : string) (n : nat) : stmts :=
+Definition first_stmts (idiom : string) (cr : collref) (ps : guard) (body : pa) (line mem : string) (n : nat) : stmts :=
   SCons (SFetch idiom (vcv_name cr n) (c_ctype cr) (c_bank cr) (fetch_lines idiom (c_ctype cr) (c_bank cr)))
-        (SCons (tfirst_loop cr ps body mem n) (one_stmt (fi_throw (isf_name n) line))).
+        (SCons (tfirst_loop cr ps body mem n) (one_stmt (fi_throw (isf_name (n + gsize ps)) line))).
 Definition cds (c : column) (n : nat) : list decl :=
   match c with
   | ColScalar e => tds e n
   | ColVec cr _ _ => [{| d_type := c_ctype cr; d_name := vcv_name cr n; d_init := None |}]
-  | ColFirst cr _ _ _ => [{| d_type := c_ctype cr; d_name := vcv_name cr n; d_init := None |}; fi_decl (isf_name n)]
+  | ColFirst cr g _ _ => [{| d_type := c_ctype cr; d_name := vcv_name cr n; d_init := None |}; fi_decl (isf_name (n + gsize g))]
   end.
 Definition css (idiom : string) (c : column) (mem : string) (n : nat) : stmts :=
   match c with
@@ -1087,8 +1244,8 @@ Lemma tcol_split (idiom : string) (c : column) (mem : string) (n : nat) :
 Proof.
   destruct c as [e|cr ps body|cr ps body line]; cbn [tcol cds css col_size].
   - rewrite (te_split idiom e n). rewrite (ex_size_size e). reflexivity.
-  - unfold vec_stmts. replace (n + 2) with (S (S n)) by lia. reflexivity.
-  - unfold first_stmts. replace (n + 3) with (S (S (S n))) by lia. reflexivity.
+  - unfold vec_stmts. replace (n + (2 + gsize ps)) with (S (S n) + gsize ps) by lia. reflexivity.
+  - unfold first_stmts. replace (n + (3 + gsize ps)) with (S (S (S n)) + gsize ps) by lia. reflexivity.
 Qed.
 Fixpoint rds (r : row) (n : nat) : list decl :=
   match r with [] => [] | (_, c) :: t => cds c n ++ rds t (n + col_size c) end.
@@ -1116,12 +1273,12 @@ Proof.
   induction r as [|[name c] t IH]; intros nf k n; cbn [trow_sets rsets]; [reflexivity|].
   destruct c as [e|cr ps body|cr ps body line]; cbn [col_size].
   - rewrite (te_split idiom e n), IH. rewrite (ex_size_size e). reflexivity.
-  - replace (n + 2) with (S (S n)) by lia. apply IH.
-  - replace (n + 3) with (S (S (S n))) by lia. apply IH.
+  - replace (n + (2 + gsize ps)) with (S (S n) + gsize ps) by lia. apply IH.
+  - replace (n + (3 + gsize ps)) with (S (S (S n)) + gsize ps) by lia. apply IH.
 Qed.
 
 Definition cvars (c : column) (n : nat) : list string :=
-  match c with ColScalar e => vars e n | ColVec cr _ _ => [vcv_name cr n] | ColFirst cr _ _ _ => [vcv_name cr n; isf_name n] end.
+  match c with ColScalar e => vars e n | ColVec cr _ _ => [vcv_name cr n] | ColFirst cr g _ _ => [vcv_name cr n; isf_name (n + gsize g)] end.
 Fixpoint rvars (r : row) (n : nat) : list string :=
   match r with [] => [] | (_, c) :: t => cvars c n ++ rvars t (n + col_size c) end.
 Fixpoint rmems (r : row) (nf k : nat) : list string :=
@@ -1141,7 +1298,7 @@ Proof.
   - unfold base_ok in Hb. apply andb_prop in Hb as [H1 H2]. apply negb_true_iff in H1.
     destruct Hin as [<-|[<-|[]]].
     + exists (c_base cr), n. repeat split; auto; lia.
-    + exists "is_first", (S (S n)). repeat split; auto; lia.
+    + exists "is_first", (S (S (n + gsize ps))). repeat split; auto; lia.
 Qed.
 Lemma rvars_shape (r : row) : forall n x, row_bases_ok r = true -> In x (rvars r n) ->
   exists b i, x = nm b i /\ last_digit b = false /\ first_not_underscore b = true /\ n <= i < n + row_size r.
@@ -1184,7 +1341,7 @@ Definition col_declared (c : column) (n : nat) (st : state) : Prop :=
   match c with
   | ColScalar e => declared e n st
   | ColVec cr _ _ => exists t v, fget (vcv_name cr n) st = Some (t, v)
-  | ColFirst cr _ _ _ => (exists t v, fget (vcv_name cr n) st = Some (t, v)) /\ fget (isf_name n) st = Some ("bool", VBool true)
+  | ColFirst cr g _ _ => (exists t v, fget (vcv_name cr n) st = Some (t, v)) /\ fget (isf_name (n + gsize g)) st = Some ("bool", VBool true)
   end.
 Fixpoint row_declared (r : row) (n : nat) (st : state) : Prop :=
   match r with [] => True | (_, c) :: t => col_declared c n st /\ row_declared t (n + col_size c) st end.
@@ -1244,6 +1401,10 @@ Lemma col_exec (brs : list branch) (ev : event) (idiom : string) (c : column) (m
   end.
 Proof.
   intros Hb D Hf Hshape Hiv (old & Hm & Hold).
+  assert (Hmb : String.eqb mem (bo_name n) = false).
+  { destruct (String.eqb mem (bo_name n)) eqn:E; [|reflexivity]. apply String.eqb_eq in E. exfalso. exact (Hshape "bool_op" (S (S n)) eq_refl E). }
+  assert (Hib : String.eqb (iv_name n) (bo_name n) = false) by (apply nm_neq; [reflexivity|reflexivity|lia]).
+  assert (Hbi : String.eqb (bo_name n) (iv_name n) = false) by (apply nm_neq; [reflexivity|reflexivity|lia]).
   destruct c as [e|cr ps body|cr ps body line]; cbn [dcol css col_bases_ok col_declared cvars col_done col_type] in *.
   - pose proof (de_phases ev e) as P. pose proof (te_exec brs ev idiom e n st Hb D) as T.
     destruct (de ev e) as [v0|f|k]; cbn [rbind]; [| |exact I].
@@ -1269,14 +1430,14 @@ Proof.
     { unfold st1. rewrite mget_upd. subst old. exact Hm. }
     destruct cval; cbn [rbind]; try exact I; try reflexivity.
     destruct (vec_loop ev (pa_type body) body ps l []) as [vs|f|k] eqn:Ev; cbn [rbind]; [| |exact I].
-    + rewrite (loop_push brs ev _ _ mem body ps l st1 [] Hf1 Hiv Hm1); rewrite Ev; [|exact I].
+    + rewrite (loop_push brs ev _ _ mem body ps n l st1 [] Hf1 Hiv Hmb Hib Hbi Hm1); rewrite Ev; [|exact I].
       destruct (assign_updm mem (VVec vs) st1 _ _ Hf1 Hm1) as (_ & _ & G & O & Fr & Rw).
       eexists. split; [reflexivity|]. split; [congruence|]. split; [|split].
       * intros y Hy. rewrite fget_updm. apply Hoth. destruct (String.eqb y (vcv_name cr n)) eqn:E; [|reflexivity].
         apply String.eqb_eq in E. exfalso. apply Hy. left; auto.
       * intros m Hmne. rewrite (O m Hmne). apply mget_upd.
       * split; [eexists; reflexivity|exact G].
-    + rewrite (loop_push brs ev _ _ mem body ps l st1 [] Hf1 Hiv Hm1); rewrite Ev; [reflexivity|exact I].
+    + rewrite (loop_push brs ev _ _ mem body ps n l st1 [] Hf1 Hiv Hmb Hib Hbi Hm1); rewrite Ev; [reflexivity|exact I].
   - destruct D as [(tcv & v0 & Dcv) Disf]. unfold first_stmts. rewrite exec_stmts_cons. cbn [exec_stmt].
     destruct (assoc_ss (c_ctype cr, c_bank cr) (ev_colls ev)) as [cval|]; [|reflexivity].
     destruct (assign_upd (vcv_name cr n) cval st tcv v0 Dcv) as (Has & _ & Hcv1 & Hoth & Mem1 & R1).
@@ -1287,40 +1448,41 @@ Proof.
     rewrite eval_var, (lookup_fget _ _ _ Hcv1).
     set (st1 := upd (vcv_name cr n) cval st) in *.
     unfold base_ok in Hb. apply andb_prop in Hb as [Hl F]. apply negb_true_iff in Hl.
-    assert (Ne1 : String.eqb (isf_name n) (vcv_name cr n) = false) by (apply nm_neq; [reflexivity|exact Hl|lia]).
-    assert (Ne2 : String.eqb (isf_name n) (iv_name n) = false) by (apply nm_neq; [reflexivity|reflexivity|lia]).
-    assert (Ne3 : String.eqb (iv_name n) (isf_name n) = false) by (apply nm_neq; [reflexivity|reflexivity|lia]).
-    assert (Hisf1 : fget (isf_name n) st1 = Some ("bool", VBool true)) by (rewrite (Hoth _ Ne1); exact Disf).
+    assert (Ne1 : String.eqb (isf_name (n + gsize ps)) (vcv_name cr n) = false) by (apply nm_neq; [reflexivity|exact Hl|lia]).
+    assert (Ne2 : String.eqb (isf_name (n + gsize ps)) (iv_name n) = false) by (apply nm_neq; [reflexivity|reflexivity|lia]).
+    assert (Ne3 : String.eqb (iv_name n) (isf_name (n + gsize ps)) = false) by (apply nm_neq; [reflexivity|reflexivity|lia]).
+    assert (Hisf1 : fget (isf_name (n + gsize ps)) st1 = Some ("bool", VBool true)) by (rewrite (Hoth _ Ne1); exact Disf).
     assert (Hf1 : fget mem st1 = None).
     { rewrite Hoth; [exact Hf|]. destruct (String.eqb mem (vcv_name cr n)) eqn:E; [|reflexivity].
       apply String.eqb_eq in E. exfalso. exact (Hshape _ _ F E). }
     assert (Hm1 : mget mem st1 = Some (pa_type body, old)) by (unfold st1; rewrite mget_upd; exact Hm).
     destruct cval; cbn [rbind]; try exact I; try reflexivity.
-    pose proof (loop_first brs ev (iv_name n) (c_arrow cr) (isf_name n) mem body ps l st1 None old Ne3 Ne2 Hiv Hisf1 Hf1 Hm1) as L.
+    assert (Nfb : String.eqb (isf_name (n + gsize ps)) (bo_name n) = false) by (apply nm_neq_base; [reflexivity|reflexivity|discriminate]).
+    pose proof (loop_first brs ev (iv_name n) (c_arrow cr) (isf_name (n + gsize ps)) mem body ps n l st1 None old Ne3 Ne2 Hiv Nfb Hmb Hib Hbi Hisf1 Hf1 Hm1) as L.
     destruct (first_loop ev (pa_type body) body ps l None) as [o|f|k] eqn:Ef; cbn [rbind]; [| |exact I].
     + rewrite (L I). cbn [rbind]. rewrite exec_one. unfold first_state.
       destruct o as [x|].
-      * destruct (assign_upd (isf_name n) (VBool false) st1 _ _ Hisf1) as (_ & _ & G1 & O1 & M1 & Rw1).
-        assert (Hme : String.eqb mem (isf_name n) = false).
-        { destruct (String.eqb mem (isf_name n)) eqn:E; [|reflexivity]. apply String.eqb_eq in E. exfalso.
-          exact (Hshape "is_first" (S (S n)) eq_refl E). }
-        assert (Hf2 : fget mem (upd (isf_name n) (VBool false) st1) = None) by (rewrite (O1 mem Hme); exact Hf1).
-        assert (Hm2 : mget mem (upd (isf_name n) (VBool false) st1) = Some (pa_type body, old)) by (rewrite mget_upd; exact Hm1).
-        destruct (assign_updm mem x (upd (isf_name n) (VBool false) st1) _ _ Hf2 Hm2) as (_ & _ & G2 & O2 & Fr2 & Rw2).
-        set (st2 := updm mem x (upd (isf_name n) (VBool false) st1)) in *.
-        assert (Hl2 : lookup (isf_name n) st2 = Some ("bool", VBool false)).
+      * destruct (assign_upd (isf_name (n + gsize ps)) (VBool false) st1 _ _ Hisf1) as (_ & _ & G1 & O1 & M1 & Rw1).
+        assert (Hme : String.eqb mem (isf_name (n + gsize ps)) = false).
+        { destruct (String.eqb mem (isf_name (n + gsize ps))) eqn:E; [|reflexivity]. apply String.eqb_eq in E. exfalso.
+          exact (Hshape "is_first" (S (S (n + gsize ps))) eq_refl E). }
+        assert (Hf2 : fget mem (upd (isf_name (n + gsize ps)) (VBool false) st1) = None) by (rewrite (O1 mem Hme); exact Hf1).
+        assert (Hm2 : mget mem (upd (isf_name (n + gsize ps)) (VBool false) st1) = Some (pa_type body, old)) by (rewrite mget_upd; exact Hm1).
+        destruct (assign_updm mem x (upd (isf_name (n + gsize ps)) (VBool false) st1) _ _ Hf2 Hm2) as (_ & _ & G2 & O2 & Fr2 & Rw2).
+        set (st2 := updm mem x (upd (isf_name (n + gsize ps)) (VBool false) st1)) in *.
+        assert (Hl2 : lookup (isf_name (n + gsize ps)) st2 = Some ("bool", VBool false)).
         { apply lookup_fget. unfold st2. rewrite fget_updm. exact G1. }
-        rewrite (throw_if_done brs ev (isf_name n) line st2 "bool" Hl2).
+        rewrite (throw_if_done brs ev (isf_name (n + gsize ps)) line st2 "bool" Hl2).
         eexists. split; [reflexivity|]. split; [rewrite Rw2, Rw1; exact R1|]. split; [|split].
         -- intros y Hy. unfold st2. rewrite fget_updm.
-           assert (Y1 : String.eqb y (isf_name n) = false).
-           { destruct (String.eqb y (isf_name n)) eqn:E; [|reflexivity]. apply String.eqb_eq in E. exfalso. apply Hy. right; left; auto. }
+           assert (Y1 : String.eqb y (isf_name (n + gsize ps)) = false).
+           { destruct (String.eqb y (isf_name (n + gsize ps))) eqn:E; [|reflexivity]. apply String.eqb_eq in E. exfalso. apply Hy. right; left; auto. }
            assert (Y2 : String.eqb y (vcv_name cr n) = false).
            { destruct (String.eqb y (vcv_name cr n)) eqn:E; [|reflexivity]. apply String.eqb_eq in E. exfalso. apply Hy. left; auto. }
            rewrite (O1 y Y1). apply (Hoth y Y2).
         -- intros m Hmne. rewrite (O2 m Hmne). rewrite mget_upd. apply mget_upd.
         -- exact G2.
-      * rewrite (throw_if_armed brs ev (isf_name n) line st1 "bool" (lookup_fget _ _ _ Hisf1)). reflexivity.
+      * rewrite (throw_if_armed brs ev (isf_name (n + gsize ps)) line st1 "bool" (lookup_fget _ _ _ Hisf1)). reflexivity.
     + rewrite (L I). reflexivity.
 Qed.
 
@@ -1453,7 +1615,7 @@ Proof.
       * exact I.
       * exact Fi2.
     + destruct Dc as [Sh M].
-      destruct (IH nf (S k) (n + 2) st vs' Dt) as (st2 & E2 & F2 & R2 & Mo2 & Fi2).
+      destruct (IH nf (S k) (n + (2 + gsize ps)) st vs' Dt) as (st2 & E2 & F2 & R2 & Mo2 & Fi2).
       { intros m Hm. apply Sep. right; exact Hm. }
       { exact Nd'. }
       exists st2. split; [exact E2|]. split; [exact F2|]. split; [exact R2|]. split; [|split; [|split]].
@@ -1461,7 +1623,7 @@ Proof.
       * rewrite (Mo2 mem Nin). exact M.
       * exact Sh.
       * exact Fi2.
-    + destruct (IH nf (S k) (n + 3) st vs' Dt) as (st2 & E2 & F2 & R2 & Mo2 & Fi2).
+    + destruct (IH nf (S k) (n + (3 + gsize ps)) st vs' Dt) as (st2 & E2 & F2 & R2 & Mo2 & Fi2).
       { intros m Hm. apply Sep. right; exact Hm. }
       { exact Nd'. }
       exists st2. split; [exact E2|]. split; [exact F2|]. split; [exact R2|]. split; [|split; [|split]].
@@ -1553,19 +1715,19 @@ Proof.
         apply String.eqb_eq in E. exfalso. apply Hy. left; auto.
       - cbn [run_decls d_init d_name d_type fi_decl eval rbind].
         unfold base_ok in Hc. apply andb_prop in Hc as [Hl _]. apply negb_true_iff in Hl.
-        assert (N1 : String.eqb (isf_name n) (vcv_name cr n) = false) by (apply nm_neq; [reflexivity|exact Hl|lia]).
+        assert (N1 : String.eqb (isf_name (n + gsize ps)) (vcv_name cr n) = false) by (apply nm_neq; [reflexivity|exact Hl|lia]).
         destruct (declare_spec (vcv_name cr n) (c_ctype cr) (default_value (c_ctype cr)) st) as (G & O & M & R).
         { apply Hf. left; reflexivity. }
         set (st1 := declare (vcv_name cr n) (c_ctype cr) (default_value (c_ctype cr)) st) in *.
-        assert (F2 : fget (isf_name n) st1 = None) by (rewrite (O _ N1); apply Hf; right; left; reflexivity).
+        assert (F2 : fget (isf_name (n + gsize ps)) st1 = None) by (rewrite (O _ N1); apply Hf; right; left; reflexivity).
         change (init_value "bool" (VBool true)) with (VBool true).
-        destruct (declare_spec (isf_name n) "bool" (VBool true) st1 F2) as (G2 & O2 & M2 & R2).
+        destruct (declare_spec (isf_name (n + gsize ps)) "bool" (VBool true) st1 F2) as (G2 & O2 & M2 & R2).
         eexists. split; [reflexivity|]. split; [split|].
         + eexists _, _. rewrite O2; [exact G|]. rewrite String.eqb_sym. exact N1.
         + exact G2.
         + split; [congruence|]. split; [congruence|]. intros y Hy.
-          assert (Y1 : String.eqb y (isf_name n) = false).
-          { destruct (String.eqb y (isf_name n)) eqn:E; [|reflexivity]. apply String.eqb_eq in E. exfalso. apply Hy. right; left; auto. }
+          assert (Y1 : String.eqb y (isf_name (n + gsize ps)) = false).
+          { destruct (String.eqb y (isf_name (n + gsize ps))) eqn:E; [|reflexivity]. apply String.eqb_eq in E. exfalso. apply Hy. right; left; auto. }
           assert (Y2 : String.eqb y (vcv_name cr n) = false).
           { destruct (String.eqb y (vcv_name cr n)) eqn:E; [|reflexivity]. apply String.eqb_eq in E. exfalso. apply Hy. left; auto. }
           rewrite (O2 _ Y1), (O _ Y2). reflexivity. }
@@ -1656,7 +1818,7 @@ Qed.
 
 (* C04 for the fragment: a First column makes the job throw exactly when no element passes the filters, and
    otherwise the row holds the body's value on the first passing element - never a default or a stale value *)
-Theorem frag_first_faults_iff_empty (bk : backend) (name : string) (cr : collref) (ps : list pred) (body : pa) (line : string)
+Theorem frag_first_faults_iff_empty (bk : backend) (name : string) (cr : collref) (ps : guard) (body : pa) (line : string)
         (n0 : nat) (ev : event) (ms : frame) (f : value -> bool) (g : value -> value) (l : list value) :
   let r := [(name, ColFirst cr ps body line)] in
   base_ok (c_base cr) = true -> members_init r (n0 + row_size r) 0 ms ->
@@ -1675,4 +1837,32 @@ Proof.
   { unfold r. cbn [drow]. rewrite (first_col_linq ev cr ps body line f g l Ha Hp Hg). destruct (filter f l); reflexivity. }
   rewrite Ed in C. destruct (filter f l) as [|v t]; [exact C|].
   destruct C as (ms' & E & _). exists ms'. exact E.
+Qed.
+
+(* and / or are as lazy as the query: once the result is known the remaining operands are not evaluated - whatever
+   they would do (fault, be undefined) - and with total operands the guard is Python's all / any *)
+Lemma and_guard_lazy (ev : event) (v : value) (p : pred) (ps : list pred) :
+  dpred ev v p = ROk false -> gpasses ev v (GBool true p ps) = ROk false.
+Proof. intro H. cbn [gpasses]. rewrite H. cbn [rbind]. destruct ps; reflexivity. Qed.
+Lemma or_guard_lazy (ev : event) (v : value) (p : pred) (ps : list pred) :
+  dpred ev v p = ROk true -> gpasses ev v (GBool false p ps) = ROk true.
+Proof. intro H. cbn [gpasses]. rewrite H. cbn [rbind]. destruct ps; reflexivity. Qed.
+
+Lemma bo_rest_total (ev : event) (v : value) (is_and : bool) (f : pred -> bool) (ps : list pred) : forall b,
+  (forall p, In p ps -> dpred ev v p = ROk (f p)) ->
+  bo_rest ev v is_and b ps = ROk (if is_and then b && forallb f ps else b || existsb f ps).
+Proof.
+  induction ps as [|q r IH]; intros b H; cbn [bo_rest forallb existsb].
+  - destruct is_and, b; reflexivity.
+  - destruct (Bool.eqb b is_and) eqn:E.
+    + rewrite (H q (or_introl eq_refl)). cbn [rbind]. rewrite IH; [|intros p Hp; apply H; right; exact Hp].
+      apply Bool.eqb_prop in E. subst is_and. destruct b; reflexivity.
+    + destruct is_and, b; try discriminate; reflexivity.
+Qed.
+Lemma bool_guard_total (ev : event) (v : value) (is_and : bool) (f : pred -> bool) (p : pred) (ps : list pred) :
+  (forall q, In q (p :: ps) -> dpred ev v q = ROk (f q)) ->
+  gpasses ev v (GBool is_and p ps) = ROk (if is_and then forallb f (p :: ps) else existsb f (p :: ps)).
+Proof.
+  intro H. cbn [gpasses]. rewrite (H p (or_introl eq_refl)). cbn [rbind].
+  rewrite (bo_rest_total ev v is_and f ps); [|intros q Hq; apply H; right; exact Hq]. reflexivity.
 Qed.
